@@ -45,6 +45,7 @@ META = {
         " Fault-overlap family (mc/fault_overlap.py): message X suffers one fault out of {pre_execute/post_execute/post_save/on_error hook, sync or async ack, result backend} x {RuntimeError, CancelledError, TimeoutError}, backend failing once, body raise/CancelledError/timeout/no-result, malformed/unknown message, broker stream error, while the healthy message Y has suspension points before, inside and after its function and the stop request may arrive at any point; Y's hook sequence equals the reference whenever its processing ends (also after a broker stream error), X's for body outcomes and backend failures."
         " Repeated faults (mc/fault_overlap.py::repeats): the same fault k times in a row (k in 3..6; thorough up to 10) on one worker, then healthy messages - a counter, pool, budget or throttle inside the worker must not change what happens at the k-th occurrence. Three messages in processing at once, each parked in one gated hook (incl. three failing messages inside on_error together)."
         " Middleware classes that come by their hooks through inheritance (all hooks on an intermediate class, split between it and the leaf, supplied by a mixin) on the worker side (one middleware, all hook subsets) and rotated through the client enumeration."
+        " Client sends whose message cannot be serialised (formatter.dumps raising): pre_send hooks run, nothing reaches the broker, no post_send, the caller gets SendTaskError."
     ),
     "assumptions": [
         "hooks are recording TaskiqMiddleware subclasses generated per case; 'overridden' is what the class defines",
@@ -212,8 +213,8 @@ def client_cases() -> List[Tuple[Any, ...]]:
         stacks += list(itertools.product(variants, repeat=k))
     # early: False | True (kicker created before the middlewares were registered) | "reused" (the middleware
     # objects had been registered on another broker first)
-    return [(st, kick, early) for st in stacks for kick in ("ok", "raise") for early in (False, True, "reused")
-            if st or not early]
+    return [(st, kick, early) for st in stacks for kick in ("ok", "raise", "dumps-raise") for early in (False, True, "reused")
+            if (st or not early) and not (kick == "dumps-raise" and early)]
 
 
 def run_client(cases: List[Tuple[Any, ...]], acc: Acc) -> None:
@@ -236,6 +237,19 @@ def run_client(cases: List[Tuple[Any, ...]], acc: Acc) -> None:
                 yield b""
 
         b = B()
+        if kick == "dumps-raise":
+            # the message cannot be turned into a BrokerMessage (a formatter with a size limit, an argument the
+            # serializer cannot encode): the send fails after pre_send, before the broker sees anything
+            from taskiq.abc.formatter import TaskiqFormatter
+
+            class RefusingFormatter(TaskiqFormatter):
+                def dumps(self, message):  # noqa: ANN001
+                    raise ValueError("message too large")
+
+                def loads(self, message):  # noqa: ANN001  # pragma: no cover
+                    raise NotImplementedError
+
+            b = b.with_formatter(RefusingFormatter())
 
         async def f(x, y):  # noqa: ANN001
             return None
@@ -283,7 +297,8 @@ def run_client(cases: List[Tuple[Any, ...]], acc: Acc) -> None:
                 if rep:
                     marks.append(f"mw{mi}")
         allm = tuple(sorted(marks))
-        ref.append(("KICK", allm, "tid-1", [1, "a"]))
+        if kick != "dumps-raise":
+            ref.append(("KICK", allm, "tid-1", [1, "a"]))
         if kick == "ok":
             for mi, (hooks, mode, rep) in enumerate(st):
                 if "post_send" in hooks:
@@ -301,7 +316,10 @@ def run_client(cases: List[Tuple[Any, ...]], acc: Acc) -> None:
         case = {"stack": [list(map(str, v)) for v in st], "kick": kick, "kicker_created_before_middlewares": early_kicker}
         if log != ref:
             acc.violation("client-sequence", f"client hook sequence {log} != reference {ref} for {case}", {"client": case})
-        if kick == "raise":
+        if kick == "dumps-raise":
+            if not isinstance(err, SendTaskError) or not isinstance(err.__cause__, ValueError):
+                acc.violation("client-failed-send-not-sendtaskerror", f"a message that could not be serialised surfaced as {err!r} for {case}", {"client": case})
+        elif kick == "raise":
             if not isinstance(err, SendTaskError) or not isinstance(err.__cause__, RuntimeError):
                 acc.violation("client-failed-kick-not-sendtaskerror", f"failed kick surfaced as {err!r} for {case}", {"client": case})
         else:
